@@ -267,13 +267,21 @@ T ebpps_sample<T,A>::get_partial_item() const {
 
 template<typename T, typename A>
 uint32_t ebpps_sample<T,A>::random_idx(uint32_t max) {
+#ifdef DATASKETCHES_VERIF
+  return static_cast<uint32_t>(random_utils::verif_next_below(max));
+#else
   static std::uniform_int_distribution<uint32_t> dist;
   return dist(random_utils::rand, std::uniform_int_distribution<uint32_t>::param_type(0, max - 1));
+#endif
 }
 
 template<typename T, typename A>
 double ebpps_sample<T,A>::next_double() {
+#ifdef DATASKETCHES_VERIF
+  return random_utils::verif_next_double();
+#else
   return random_utils::next_double(random_utils::rand);
+#endif
 }
 
 template<typename T, typename A>
